@@ -250,7 +250,14 @@ fn circles(rng: &mut Rng) {
                 v.require(t.distance_to(&pts[k]).abs() <= 1e-7 * (1.0 + c.r()), "three_points.passes_through", || "".into());
             }
         }
-        Err(_) => v.require(false, "three_points.rejects_non_collinear", || "".into()),
+        Err(_) => {
+            // a sampled arc that closes on itself to within 1e-6 rad puts the first and the last point on top of
+            // each other: such a triple IS degenerate (the code judges collinearity by the sine of the angle
+            // between the legs, threshold 1e-6) and its rejection is not a failure; found by the thorough tier
+            let (a, b) = (pts[idx[0]] - pts[idx[1]], pts[idx[1]] - pts[idx[2]]);
+            let sine = (a.x * b.y - a.y * b.x).abs() / (a.norm() * b.norm());
+            v.require(sine <= 1e-5, "three_points.rejects_non_collinear", || format!("sine of the angle between the legs {sine:e}"));
+        }
     }
     let col = Circle2::from_3_points(Point2::new(0.0, 0.0), Point2::new(1.0, 1.0), Point2::new(2.5, 2.5));
     v.require(col.is_err(), "three_points.rejects_collinear", || "".into());
